@@ -49,3 +49,186 @@ Example C12_nonvacuous :
   In (ERet 1 1 (OWaitFor 1 (2*S)) 0 (2*S) 0 false) (log s) /\ In (ERet 2 1 (OWaitFor 2 S) 0 S 1 false) (log s) /\
   In (ERet 3 1 (OWaitFor 3 (3*S)) 0 (2*S) 0 false) (log s) /\ In (ERet 4 2 (OWaitAny (3*S) [5;4]) 0 S 4 false) (log s).
 Proof. vm_compute. repeat split; auto 30. Qed.
+
+(** ------------------------------------------------------------------------------------------------------------------
+    Communications and I/Os (model Kernel/TimedComm.v: a CommImpl has no model action until both sides are posted; the
+    deadline callback of ActivityImpl::wait_for reads the action the activity has when the timer FIRES). *)
+From SGV Require Import Kernel.TimedComm Kernel.TimedCommProofs.
+
+(* END TO END, one timed wait: the visited dates [ms] are any increasing sequence of engine dates after the call that contains
+   the deadline and (when not after the deadline) the completion date -- neither is ever jumped over, see
+   C12_comm_dates_not_jumped_over -- whatever else happens at other dates.  td = t0 + t.
+   The activity already has its action when the wait is issued (I/O, exec, comm whose peer is already there): *)
+Theorem C12_wait_for_exact : forall pr oc ms e tc td,
+  0 < pr -> incr ms -> separated pr tc ms ->
+  waiting e -> e_act e = Some (ARun tc) -> e_dl e = Some td ->
+  In td ms -> (tc <= td -> In tc ms) ->
+  let e' := ep_run pr oc ms e in
+  (tc <= td -> e_res e' = EDone tc /\ e_cst e' = CDone tc) /\
+  (td < tc -> e_res e' = ETimeout td /\ (oc = true -> cancelled e')).
+Proof. exact wait_exact_running. Qed.
+Print Assumptions C12_wait_for_exact.
+
+(* the comm is still unmatched when the wait is issued: the peer posts at ts, the action created then completes at
+   tc = ts + d; a completion at the deadline counts as completed although the comm had no action when wait_for was called *)
+Theorem C12_wait_for_exact_unmatched : forall pr oc ms e ts td,
+  0 < pr -> 0 < e_dur e -> incr ms -> separated pr (ts + e_dur e) ms ->
+  waiting e -> e_act e = None -> e_cst e = CWaiting -> e_peer e = Some ts -> e_dl e = Some td ->
+  In td ms -> (ts <= td -> In ts ms) -> (ts + e_dur e <= td -> In (ts + e_dur e) ms) ->
+  let tc := ts + e_dur e in
+  let e' := ep_run pr oc ms e in
+  (tc <= td -> e_res e' = EDone tc /\ e_cst e' = CDone tc) /\
+  (td < tc -> e_res e' = ETimeout td /\ (oc = true -> cancelled e')).
+Proof. exact wait_exact_unmatched. Qed.
+Print Assumptions C12_wait_for_exact_unmatched.
+
+Theorem C12_wait_for_never_matched : forall pr oc ms e td,
+  incr ms -> waiting e -> e_act e = None -> e_cst e = CWaiting -> e_peer e = None -> e_dl e = Some td -> In td ms ->
+  let e' := ep_run pr oc ms e in e_res e' = ETimeout td /\ (oc = true -> cancelled e').
+Proof. exact wait_never_matched. Qed.
+Print Assumptions C12_wait_for_never_matched.
+
+Theorem C12_wait_untimed : forall pr oc ms e tc,
+  0 < pr -> incr ms -> separated pr tc ms -> waiting e -> e_act e = Some (ARun tc) -> e_dl e = None -> In tc ms ->
+  e_res (ep_run pr oc ms e) = EDone tc.
+Proof. exact wait_untimed_running. Qed.
+Print Assumptions C12_wait_untimed.
+
+(* THE ENGINE STEPS the episode is made of ([ep_visit] and the engine share pop_astate / timer_skips / ended_result).
+   Timer::execute_all: the callback tests the action of the record as it is in the CURRENT state *)
+Theorem C12_comm_deadline_reads_current_action : forall s p a k dl x,
+  get_actor p (actors s) = Some a -> a_st a = SBlocked (BWait k (Some dl)) -> dl <= clock s ->
+  get_comm k (comms s) = Some x ->
+  exists a', get_actor p (actors (fire_timeout s p)) = Some a' /\ clock (fire_timeout s p) = clock s /\
+    if timer_skips (c_act x) then a_st a' = SBlocked (BWait k None) /\ comms (fire_timeout s p) = comms s
+    else a_st a' = SReady 1 (seq s).
+Proof. exact timeout_spec. Qed.
+Print Assumptions C12_comm_deadline_reads_current_action.
+
+Theorem C12_comm_no_timeout_before_deadline : forall s p a k dl,
+  get_actor p (actors s) = Some a -> a_st a = SBlocked (BWait k (Some dl)) -> clock s < dl -> fire_timeout s p = s.
+Proof. exact timeout_not_before. Qed.
+Print Assumptions C12_comm_no_timeout_before_deadline.
+
+(* a side posted alone has no action; the post that matches it creates the action with completion date now + duration *)
+Theorem C12_comm_unmatched_put_has_no_action : forall s p c d s',
+  post_put s p c d = Some s' -> waiting_recv c (comms s) = None ->
+  exists x, comms s' = comms s ++ [x] /\ c_id x = c /\ c_snd x = Some p /\ c_rcv x = None /\ c_st x = CWaiting /\ c_act x = None /\ c_wait x = [].
+Proof. exact put_unmatched_no_action. Qed.
+Print Assumptions C12_comm_unmatched_put_has_no_action.
+
+Theorem C12_comm_unmatched_get_has_no_action : forall s p c s',
+  post_get s p c = Some s' -> waiting_send c (comms s) = None ->
+  exists x, comms s' = comms s ++ [x] /\ c_id x = c /\ c_rcv x = Some p /\ c_snd x = None /\ c_st x = CWaiting /\ c_act x = None /\ c_wait x = [].
+Proof. exact get_unmatched_no_action. Qed.
+Print Assumptions C12_comm_unmatched_get_has_no_action.
+
+Theorem C12_comm_get_match_creates_action : forall s p c s' x,
+  post_get s p c = Some s' -> waiting_send c (comms s) = Some x -> get_comm (c_key x) (comms s) = Some x ->
+  exists x', get_comm (c_key x) (comms s') = Some x' /\ c_st x' = CRunning /\ c_act x' = Some (ARun (clock s + c_dur x)) /\
+             c_wait x' = c_wait x /\ clock s' = clock s.
+Proof. exact get_matches_creates_action. Qed.
+Print Assumptions C12_comm_get_match_creates_action.
+
+Theorem C12_comm_put_match_creates_action : forall s p c d s' x,
+  post_put s p c d = Some s' -> waiting_recv c (comms s) = Some x -> get_comm (c_key x) (comms s) = Some x ->
+  exists x', get_comm (c_key x) (comms s') = Some x' /\ c_st x' = CRunning /\ c_act x' = Some (ARun (clock s + d)) /\
+             c_wait x' = c_wait x /\ clock s' = clock s.
+Proof. exact put_matches_creates_action. Qed.
+Print Assumptions C12_comm_put_match_creates_action.
+
+(* handle_ended_actions -> finish(): all registered waiters are answered at the current date, 0 if the action FINISHED *)
+Theorem C12_comm_finish_answers_waiters : forall s k x r,
+  get_comm k (comms s) = Some x -> ended_result (c_act x) = Some r ->
+  let s' := end_rec s k in
+  clock s' = clock s /\
+  (exists x', get_comm k (comms s') = Some x' /\ c_act x' = None /\ c_wait x' = [] /\
+              c_st x' = if r =? 0 then CDone (clock s) else if c_io x then CCanceled else CFailed) /\
+  (forall q, In q (c_wait x) -> get_actor q (actors s) <> None ->
+     exists a' n, get_actor q (actors s') = Some a' /\ a_st a' = SReady r n).
+Proof. exact end_rec_spec. Qed.
+Print Assumptions C12_comm_finish_answers_waiters.
+
+(* wait_for_or_cancel: after cancel() the activity is out of its mailbox (CANCELED) or its action is FAILED and out of
+   the heap; it can never be popped as FINISHED any more (unless it already finished in this very solve) *)
+Theorem C12_or_cancel_never_completes : forall p x,
+  (c_st x = CWaiting -> c_act x = None /\ c_io x = false) -> (c_st x = CWaiting \/ c_st x = CRunning) ->
+  let y := cancel_rec p x in
+  (forall dt, c_act y <> Some (ARun dt)) /\ c_act y <> Some AFin \/ c_act x = Some AFin /\ c_act y = Some AFin.
+Proof. exact cancel_spec. Qed.
+Print Assumptions C12_or_cancel_never_completes.
+
+Theorem C12_or_cancel_unmatched_is_canceled : forall p x, c_st x = CWaiting -> c_io x = false -> c_st (cancel_rec p x) = CCanceled.
+Proof. exact cancel_waiting_canceled. Qed.
+Print Assumptions C12_or_cancel_unmatched_is_canceled.
+
+Theorem C12_or_cancel_running_action_failed : forall p x dt, c_st x = CRunning -> c_act x = Some (ARun dt) -> c_act (cancel_rec p x) = Some AFailed.
+Proof. exact cancel_running_failed. Qed.
+Print Assumptions C12_or_cancel_running_action_failed.
+
+(* solve() stops at the earliest pending date; deadlines and completion dates are pending dates *)
+Theorem C12_comm_dates_not_jumped_over : forall s s' d,
+  advance s = Some s' -> In d (all_dates s) -> stuck s' = false -> clock s' <= d.
+Proof. exact advance_stops_at_earliest. Qed.
+Print Assumptions C12_comm_dates_not_jumped_over.
+
+Theorem C12_comm_deadline_is_pending : forall s a k dl, In a (actors s) -> a_st a = SBlocked (BWait k (Some dl)) -> In dl (all_dates s).
+Proof. exact deadline_is_pending. Qed.
+Print Assumptions C12_comm_deadline_is_pending.
+
+Theorem C12_comm_completion_is_pending : forall s x dt, In x (comms s) -> c_act x = Some (ARun dt) -> In dt (all_dates s).
+Proof. exact completion_is_pending. Qed.
+Print Assumptions C12_comm_completion_is_pending.
+
+Theorem C12_comm_completion_date : forall s m x dt, c_act x = Some (ARun dt) ->
+  c_act (pop_comm s m x) = if due (prec s) m dt (c_io x) then Some AFin else Some (ARun dt).
+Proof. exact comm_pop_spec. Qed.
+Print Assumptions C12_comm_completion_date.
+
+(* non-vacuity. Episode: sender waits from 0 with a 3 s deadline, the receiver posts at 1 s, 2 s payload: completion AT the deadline *)
+Example C12_wait_for_exact_unmatched_nonvacuous :
+  let S := 4294967296 in
+  let e := mkE None (Some (3*S)) (Some S) (2*S) false EWaiting CWaiting in
+  let ms := [S; 2*S; 3*S; 4*S] in
+  0 < 4 /\ 0 < e_dur e /\ incr ms /\ separated 4 (S + e_dur e) ms /\ waiting e /\ In (3*S) ms /\ In S ms /\
+  e_res (ep_run 4 false ms e) = EDone (3*S) /\
+  e_res (ep_run 4 true [S; 2*S; 3*S - 4; 3*S] (mkE None (Some (3*S - 4)) (Some S) (2*S) false EWaiting CWaiting)) = ETimeout (3*S - 4).
+Proof.
+  cbn zeta.
+  split; [reflexivity|]. split; [reflexivity|]. split; [vm_compute; auto|].
+  split. { intros m Hm Hlt. cbn [e_dur] in *. destruct Hm as [<-|[<-|[<-|[<-|[]]]]]; lia. }
+  split; [reflexivity|]. split; [vm_compute; auto|]. split; [vm_compute; auto|].
+  split; vm_compute; reflexivity.
+Qed.
+
+Example C12_wait_for_exact_nonvacuous :
+  let S := 4294967296 in
+  let e := mkE (Some (ARun (2*S))) (Some (2*S)) None (2*S) true EWaiting CRunning in
+  incr [S; 2*S] /\ separated 4 (2*S) [S; 2*S] /\ e_res (ep_run 4 true [S; 2*S] e) = EDone (2*S) /\
+  e_res (ep_run 4 true [S; 2*S] (mkE (Some (ARun (2*S))) (Some S) None (2*S) true EWaiting CRunning)) = ETimeout S /\
+  cancelled (ep_run 4 true [S; 2*S] (mkE (Some (ARun (2*S))) (Some S) None (2*S) true EWaiting CRunning)).
+Proof.
+  cbn zeta.
+  split; [vm_compute; auto|].
+  split. { intros m Hm Hlt. destruct Hm as [<-|[<-|[]]]; lia. }
+  split; [vm_compute; reflexivity|]. split; [vm_compute; reflexivity|].
+  vm_compute. left. reflexivity.
+Qed.
+
+(* whole runs of the engine model: sender first with the completion at / one precision before the deadline (timeout, then the
+   natural completion is observed by an untimed wait); receiver first with Mailbox::get(t) at the deadline; wait_for_or_cancel
+   timing out makes the peer fail at that date; I/O at the deadline *)
+Example C12_comm_nonvacuous :
+  let S := 4294967296 in
+  let '(s1, f1) := run 60 (init 4 [[KPut 1 (2*S) false; KWait 1 (3*S) false]; [KSleep S; KGet 1 false; KWait 1 (-1) false]]) in
+  let '(s2, f2) := run 60 (init 4 [[KPut 1 (2*S) false; KWait 1 (3*S - 4) false; KWait 1 (-1) false]; [KSleep S; KGet 1 false; KWait 1 (-1) false]]) in
+  let '(s3, f3) := run 60 (init 4 [[KSleep S; KPut 1 (2*S) true; KWait 1 (2*S) true]; [KGet 1 true; KWait 1 (3*S) true]]) in
+  let '(s4, f4) := run 60 (init 4 [[KPut 1 (2*S) false; KWait 1 (2*S) true; KSleep (4*S)]; [KSleep S; KGet 1 false; KWait 1 (-1) false]]) in
+  let '(s5, f5) := run 60 (init 4 [[KIo 2 (2*S); KWait 2 (2*S) false; KIo 3 (2*S); KWait 3 S true]]) in
+  f1 = true /\ f2 = true /\ f3 = true /\ f4 = true /\ f5 = true /\
+  In (ERet 1 1 0 (3*S) 0) (log s1) /\ In (ERet 2 2 S (3*S) 0) (log s1) /\
+  In (ERet 1 1 0 (3*S - 4) 1) (log s2) /\ In (ERet 1 2 (3*S - 4) (3*S) 0) (log s2) /\
+  In (ERet 1 1 S (3*S) 0) (log s3) /\ In (ERet 2 0 0 (3*S) 0) (log s3) /\
+  In (ERet 1 1 0 (2*S) 1) (log s4) /\ In (ERet 2 2 S (2*S) 3) (log s4) /\
+  In (ERet 1 1 0 (2*S) 0) (log s5) /\ In (ERet 1 3 (2*S) (3*S) 1) (log s5).
+Proof. vm_compute. repeat split; auto 30. Qed.
